@@ -57,7 +57,7 @@ Listed(i, s) == (IF i \in NetPubs \cup PsPubs THEN {i} ELSE {}) \cup {x \in Subs
 SeqSet(q) == {q[k] : k \in 1..Len(q)}
 
 TraceStep ==
-  /\ l <= Len(Trace) /\ Trace[l].ev \notin {"reset", "Leak"} /\ l' = l + 1
+  /\ l <= Len(Trace) /\ Trace[l].ev \notin {"reset", "Leak", "Died"} /\ l' = l + 1
   /\ LET e == Trace[l] IN
      IF failed THEN UNCHANGED vars /\ failed' = failed
      ELSE /\ Do(e.ev, e)
@@ -67,6 +67,7 @@ TraceStep ==
                          /\ ("pipe" \in DOMAIN e => e.pipe = (IF owner' = "" THEN <<>> ELSE PipeComps))
                          /\ ("filesOk" \in DOMAIN e => e.filesOk)
                          /\ ("pa" \in DOMAIN e => e.pa = patt' /\ e.pn = NAtt(push'))   \* push attempts seen / sessions attached
+                         /\ ("orph" \in DOMAIN e => e.orph = 0)   \* connections orphaned by the removal of the group are closed when they complete
                          /\ ("plen" \in DOMAIN e => e.plen = act'.plen)                   \* URL parameters forwarded in full
                          /\ (("stat" \in DOMAIN e /\ ~down') =>     \* (after a shutdown the listing is moot)
                                /\ e.stat.exists = grp'
@@ -84,7 +85,13 @@ TraceLeak ==
      IN /\ failed' = failed /\ UNCHANGED vars
         /\ IF good THEN TRUE ELSE PrintT("@REJ@" \o ToString(l))
 
-TraceNext == TraceReset \/ TraceStep \/ TraceLeak
+\* the process serving the scenario died (a panic in a goroutine lal owns): no behaviour of the model
+TraceDied ==
+  /\ l <= Len(Trace) /\ Trace[l].ev = "Died" /\ l' = l + 1
+  /\ failed' = TRUE /\ UNCHANGED vars
+  /\ PrintT("@REJ@" \o ToString(l))
+
+TraceNext == TraceReset \/ TraceStep \/ TraceLeak \/ TraceDied
 TraceSpec == TraceInit /\ [][TraceNext]_tvars
 HighWater == TLCSet(1, IF l > TLCGet(1) THEN l ELSE TLCGet(1))
 Accept == PrintT("@HW@" \o ToString(TLCGet(1)))
